@@ -126,15 +126,17 @@ class Battle(history.History):
         return True
 
     def player(self, eid):
+        """the recording player's creation packets; the base and cell packets come in either order (the players say they do not rely on one)"""
         ai = self.avatar_idx
         view = self.views[ai]
         body = b''
         if self.game != 'wot':
             for name, size, t, flags in view['base']:
                 body += wire.encode(t, benign(t, name), 1)
-        self.emit('base', struct.pack('<ih', eid, ai + 1) + history.bstream(body), id=eid)
+        base = ('base', struct.pack('<ih', eid, ai + 1) + history.bstream(body))
         self.world[eid] = self.new_entity(eid, ai)
         self.player_id = eid
+        cell = None
         if 'cell' in self.tab:
             body = b''
             for name, size, t, flags in view['internal']:
@@ -145,7 +147,12 @@ class Battle(history.History):
             if self.game == 'wot':
                 head += struct.pack('<h', 0)
             head += struct.pack('<i', 0) + b'\x00' * 24
-            self.emit('cell', head + history.bstream(body), id=eid)
+            cell = ('cell', head + history.bstream(body))
+        order = [base, cell] if cell is not None else [base]
+        if cell is not None and self.rng.random() < 0.4:
+            order = [cell, base]
+        for kind, payload in order:
+            self.emit(kind, payload, id=eid)
 
     def set_prop(self, eid, pname, v=None):
         ent = self.world[eid]
